@@ -25,7 +25,7 @@ HARNESS = os.path.join(ROOT, "harness/c10/zz_verif_c10_test.go")
 PKG = "./internal/index/manager/"
 RUN = os.path.join(BUILD, "run", "c10")
 TAGDEFS = ['cdata:"^a+$"', 'cdata:"bb"', 'cdata:"^[ab]+$"']   # anchored: a stream stops matching when a later capture extends it
-GEN_VERSION = 11
+GEN_VERSION = 12
 KF_REFETCH = "view-refetch-empty"
 
 
@@ -56,20 +56,20 @@ def gen_scenario(rng, name, big=False):
     script = []
     n = rng.randint(8, 60 if big else 38)
     style = rng.random()
-    ops = ["import", "step", "view", "read", "release", "tagadd", "tagdel", "tagupd", "failmerge", "markadd", "markdel"]
+    ops = ["import", "step", "view", "read", "release", "tagadd", "tagdel", "tagupd", "failmerge", "markadd", "markdel", "reftag"]
     if style < 0.25:      # merge-heavy: few tags, many steps, merges that fail on a damaged input
-        w = [0.22, 0.40, 0.12, 0.03, 0.09, 0.02, 0.01, 0.01, 0.14, 0.02, 0.01]
-    elif style < 0.5:     # view-heavy, with mark edits under open views
-        w = [0.18, 0.30, 0.22, 0.05, 0.13, 0.04, 0.02, 0.02, 0.05, 0.07, 0.05]
+        w = [0.22, 0.40, 0.12, 0.03, 0.09, 0.02, 0.01, 0.01, 0.14, 0.02, 0.01, 0.01]
+    elif style < 0.5:     # view-heavy, with mark edits under open views and a tag that references the mark
+        w = [0.18, 0.28, 0.22, 0.05, 0.12, 0.03, 0.02, 0.02, 0.04, 0.08, 0.06, 0.05]
     elif style < 0.75:
-        w = [0.22, 0.36, 0.13, 0.04, 0.09, 0.06, 0.03, 0.03, 0.05, 0.04, 0.03]
-    else:                 # tag-heavy: tags deleted / redefined while their tagging job is parked, marks edited
-        w = [0.18, 0.35, 0.10, 0.02, 0.06, 0.10, 0.09, 0.09, 0.02, 0.06, 0.05]
+        w = [0.22, 0.35, 0.13, 0.04, 0.09, 0.06, 0.03, 0.03, 0.05, 0.04, 0.03, 0.02]
+    else:                 # tag-heavy: tags deleted / redefined while their tagging job is parked, marks edited, referencing tag
+        w = [0.18, 0.32, 0.10, 0.02, 0.06, 0.09, 0.08, 0.08, 0.02, 0.07, 0.06, 0.05]
     for _ in range(n):
         k = rng.choices(ops, weights=w)[0]
         if k == "import":
             script.append(["import", rng.choice([1, 1, 1, 2, 3])])
-        elif k in ("step", "read", "release", "tagdel", "tagupd", "markadd", "markdel"):
+        elif k in ("step", "read", "release", "tagdel", "tagupd", "markadd", "markdel", "reftag"):
             script.append([k, rng.randrange(6)])
         elif k == "view":
             script.append(["viewp"] if rng.random() < 0.4 else ["view"])   # viewp: battery asks with PrefetchAllTags
@@ -147,6 +147,14 @@ def fixed_scenarios():
     out.append({"name": "fix-mark-edits-under-views", "caps": [[[0, 3], [1, 2], [2, 1]], [[0, 1], [3, 2]]], "tags": [], "probe": 6,
                 "script": [["import", 1], ["job", "import"], ["job", "import"], ["markadd", 0], ["markadd", 1], ["view"], ["markdel", 0],
                            ["viewp"], ["markadd", 2], ["import", 1], ["job", "import"], ["view"], ["markdel", 1], ["job", "import"], ["markadd", 3]]})
+    # a tag that references the mark tag: its tagging job is parked after a mark edit, a view is opened, the mark is edited again
+    out.append({"name": "fix-referencing-tag-under-view", "caps": [[[0, 3], [1, 2], [2, 1]], [[3, 2]]], "tags": [], "probe": 5,
+                "script": [["import", 1], ["job", "import"], ["job", "import"], ["markadd", 0], ["reftag", 0], ["job", "tag"], ["job", "tag"],
+                           ["markadd", 1], ["view"], ["markdel", 0], ["viewp"], ["job", "tag"], ["markadd", 2], ["job", "tag"], ["view"],
+                           ["import", 1], ["markdel", 1]]})
+    out.append({"name": "fix-referencing-tag-negated", "caps": [[[0, 3], [1, 2], [2, 1]]], "tags": [], "probe": 4,
+                "script": [["import", 1], ["job", "import"], ["job", "import"], ["markadd", 1], ["reftag", 1], ["job", "tag"], ["job", "tag"],
+                           ["view"], ["markadd", 0], ["view"], ["markdel", 1], ["job", "tag"], ["viewp"], ["markdel", 0], ["job", "tag"]]})
     # several unmerged index files of different sizes: paged, sorted searches must still list every stream once
     out.append({"name": "fix-paged-search-unmerged", "caps": [[[0, 3], [1, 2], [2, 1]], [[3, 4]], [[0, 1], [4, 2]], [[1, 1]]], "tags": ['cdata:"bb"'], "probe": 7,
                 "script": [["import", 1], ["job", "import"], ["job", "import"], ["tagadd"], ["import", 1], ["job", "import"], ["job", "import"],
